@@ -49,6 +49,7 @@ type boundary struct {
 	txOfPt   int  // number of this transaction among those of the point (0-based)
 	anonLog  int  // events the exec handler had been handed
 	namedLog int
+	mem      string // non-OK levels of the topics in memory when the snapshot was taken
 }
 
 type snapStore struct {
@@ -73,6 +74,7 @@ type harness struct {
 	boundaries []boundary
 	recording  bool
 	n          int
+	cfg        Config
 }
 
 func (h *harness) snap(after bool) {
@@ -93,6 +95,9 @@ func (h *harness) snap(after bool) {
 	b := boundary{file: fn, point: h.point, after: after, txOfPt: h.txOfPt}
 	if after {
 		h.txOfPt++
+		b.mem = nonOK(h.topicLevels(h.cfg))
+	} else if n := len(h.boundaries); n > 0 {
+		b.mem = h.boundaries[n-1].mem // nothing was committed since the previous boundary
 	}
 	h.boundaries = append(h.boundaries, b)
 }
@@ -101,6 +106,7 @@ func (h *harness) open(path string, cfg Config, record bool) error {
 	h.cmd = &kit.FakeCommander{}
 	h.named = &kit.RecHandler{Name: "named"}
 	h.recording = false
+	h.cfg = cfg
 	env, err := kit.NewAlertEnv("c08", kit.AlertOpts{Persist: true, BoltPath: path, Commander: h.cmd,
 		WrapStore: func(ns string, s storage.Interface) storage.Interface {
 			if ns == "topic_states_store" {
@@ -327,6 +333,10 @@ func run(t *testing.T, c Case, stats *stat) (p *problem) {
 			return p
 		}
 		where := fmt.Sprintf("crash %s the commit of transaction %d of point %d (levels %v ids %v, %s)", map[bool]string{false: "before", true: "after"}[b.after], b.txOfPt, b.point, c.Levels, c.IDs, c.Cfg.script())
+		// (i) right after the restart every id is at the last level recorded for it (OK / absent otherwise)
+		if nonOK(restoredLevels) != b.mem {
+			return &problem{"restored-state", fmt.Sprintf("%s: topic state right after restart %q, recorded at the crash %q", where, nonOK(restoredLevels), b.mem)}
+		}
 		// (ii) final state
 		if nonOK(endLevels) != nonOK(finalLevels) {
 			return &problem{"final-state", fmt.Sprintf("%s: final topic state %q, uninterrupted run %q (state right after restart %q)", where, nonOK(endLevels), nonOK(finalLevels), nonOK(restoredLevels))}
